@@ -8,12 +8,14 @@ CONSTANTS
   MaxMaj = 3
   MaxMin = 1
   MaxForks = 1
-  MaxTouch = 2
+  MaxTouch = 1
+  InitConts <- InitA1
+  InFlightReads = FALSE
   AlignedOnly = TRUE
   RootCacheRecent <- MutRootCacheRecent
 INVARIANT RetainedReadable
 INVARIANT PrunedNeverDifferent
 INVARIANT NoWrongNode
 INVARIANT RootCanonical
-INVARIANT DedupKeyUnique
+INVARIANT PrunedUnreadable
 CHECK_DEADLOCK FALSE
